@@ -1,11 +1,12 @@
 CONSTANTS
   NameSeq <- N2
-  Cidrs <- Fam5
+  Cidrs <- Fam3
   BlockSpots <- Spots2
   CidrOverlap <- TabOverlap
   CidrCovers <- TabCovers
+  MaxFail = 1
   Ties = TRUE
-INIT Init
+INIT IInit
 NEXT INext
-INVARIANTS TypeOK RefinesP Idempotent TrueNeverOverlaps
+INVARIANTS TypeOK RefinesP RefinesPF Idempotent TrueNeverOverlaps
 CHECK_DEADLOCK FALSE
